@@ -219,6 +219,7 @@ func check(id, tier string, seed int64, workers int, verbose bool, only string, 
 	totalPaths, totalDecisions, totalQueries := int64(0), int64(0), int64(0)
 	var solverTime time.Duration
 	validated := 0
+	diffChecked := 0
 	var sampleOut []interface{}
 	violationsReported := 0
 	funcs := map[string]int64{}
@@ -265,6 +266,9 @@ func check(id, tier string, seed int64, workers int, verbose bool, only string, 
 		if verbose {
 			symgo.InitTrace = func(s string) { fmt.Fprintln(os.Stderr, "  "+s) }
 		}
+		if tier == "thorough" || os.Getenv("SYMGO_DIFF") != "" {
+			opts.DiffQueries = 12
+		}
 		opts.MaxPaths = devMaxPaths
 		if devDeadline > 0 {
 			opts.Deadline = time.Now().Add(devDeadline)
@@ -294,6 +298,13 @@ func check(id, tier string, seed int64, workers int, verbose bool, only string, 
 		totalDecisions += res.Decisions
 		totalQueries += res.Queries
 		solverTime += res.SolverTime
+		if len(res.Diffs) > 0 {
+			n, bad := solverDiff(filepath.Join(workDir, r.Name), res.Diffs)
+			diffChecked += n
+			for _, m := range bad {
+				inconclusive = append(inconclusive, r.Name+": "+m)
+			}
+		}
 		b := fmt.Sprintf("%s %v", r.Name, args)
 		if r.Bounds != nil {
 			b = r.Name + ": " + r.Bounds(args)
@@ -500,23 +511,24 @@ func check(id, tier string, seed int64, workers int, verbose bool, only string, 
 		"seed":        seed,
 		"level":       "model_checking",
 		"coverage": map[string]interface{}{
-			"states":                        totalPaths,
-			"transitions":                   totalDecisions,
-			"traces_validated_against_impl": validated,
-			"samples":                       sampleOut,
-			"states_meaning":                "feasible symbolic paths of the harness explored (each stands for all inputs satisfying its path condition)",
-			"transitions_meaning":           "branch / concretisation decisions settled by the SMT solver",
-			"functions_encoded":             fes,
-			"bounds":                        boundsText,
-			"solver_queries":                totalQueries,
-			"solver_time_s":                 solverTime.Seconds(),
-			"solver":                        "z3 4.8.12 (QF_BV, incremental)",
-			"assert_and_cover_reach":        reach,
-			"outside_claim":                 sp.OutsideClaim,
-			"stubs":                         stubList(sp),
-			"inconclusive":                  inconclusive,
-			"exhaustive":                    len(inconclusive) == 0,
-			"load_s":                        ld.took.Seconds(),
+			"states":                              totalPaths,
+			"transitions":                         totalDecisions,
+			"traces_validated_against_impl":       validated,
+			"samples":                             sampleOut,
+			"states_meaning":                      "feasible symbolic paths of the harness explored (each stands for all inputs satisfying its path condition)",
+			"transitions_meaning":                 "branch / concretisation decisions settled by the SMT solver",
+			"functions_encoded":                   fes,
+			"bounds":                              boundsText,
+			"solver_queries":                      totalQueries,
+			"solver_time_s":                       solverTime.Seconds(),
+			"solver":                              "z3 4.8.12 (QF_BV, incremental)",
+			"queries_rechecked_by_z3new_and_cvc5": diffChecked,
+			"assert_and_cover_reach":              reach,
+			"outside_claim":                       sp.OutsideClaim,
+			"stubs":                               stubList(sp),
+			"inconclusive":                        inconclusive,
+			"exhaustive":                          len(inconclusive) == 0,
+			"load_s":                              ld.took.Seconds(),
 		},
 		"assumptions": sp.Assumptions,
 		"wall_s":      time.Since(t0).Seconds(),
@@ -574,4 +586,38 @@ func replayFile(path string) int {
 func selftest() int {
 	fmt.Println("selftest: not yet implemented")
 	return 0
+}
+
+// solverDiff re-asks a sample of assertion queries, as stand-alone scripts, to
+// z3 5.1.0 (z3-new) and cvc5; any disagreement with the verdict z3 4.8.12 gave
+// during exploration makes the run inconclusive.
+func solverDiff(dir string, qs []symgo.DiffQuery) (int, []string) {
+	os.MkdirAll(dir, 0o755)
+	sort.Slice(qs, func(a, b int) bool { return qs[a].Script < qs[b].Script })
+	if len(qs) > 48 {
+		qs = qs[:48]
+	}
+	var bad []string
+	n := 0
+	for k, q := range qs {
+		path := filepath.Join(dir, fmt.Sprintf("diff-%d.smt2", k))
+		os.WriteFile(path, []byte("(set-logic QF_BV)\n"+q.Script), 0o644)
+		for _, sv := range [][]string{{"z3-new", path}, {"cvc5", "--lang=smt2", path}} {
+			out, err := exec.Command("timeout", append([]string{"60", sv[0]}, sv[1:]...)...).CombinedOutput()
+			got := strings.TrimSpace(string(out))
+			if err != nil && got == "" {
+				bad = append(bad, fmt.Sprintf("second solver %s failed on %s: %v", sv[0], path, err))
+				continue
+			}
+			if strings.Contains(got, "(error") || (got != "sat" && got != "unsat") {
+				bad = append(bad, fmt.Sprintf("second solver %s inconclusive on %s: %q", sv[0], path, got))
+				continue
+			}
+			if got != q.Expect {
+				bad = append(bad, fmt.Sprintf("SOLVER DISAGREEMENT on %s: z3 4.8.12 said %s, %s says %s", path, q.Expect, sv[0], got))
+			}
+		}
+		n++
+	}
+	return n, bad
 }
